@@ -117,6 +117,16 @@ fn forward(acc: &mut Acc, tier: Tier) -> serde_json::Value {
         if all_present.len() > 2 {
             cases.push((di, all_present));
         }
+        if tier == Tier::Quick {
+            // pairs of *presence*: every two optional top-level members set together (two members bound to one wire name,
+            // one member's encoding disturbing its neighbour's)
+            let present: Vec<usize> = labels.iter().enumerate().filter(|(_, l)| l.ends_with("=Some(base)") && l.matches('.').count() == 1).map(|(i, _)| i).collect();
+            for (x, &i) in present.iter().enumerate() {
+                for &j in &present[x + 1..] {
+                    cases.push((di, vec![i, j]));
+                }
+            }
+        }
         if tier == Tier::Thorough {
             for i in 0..labels.len() {
                 for j in i + 1..labels.len() {
